@@ -6,17 +6,17 @@ several sub-lists for restriction / prolongation, and an ordered list of interfa
 are referred to by their position in `mdg.subdomains()` / `mdg.interfaces()` of the freshly built md-grid.
 """
 import json
+import os
 from fractions import Fraction
 
 from harness.common import frac, err_kind, deep_compare
 
 PID = "C27"
-DISABLED = True
 THEOREMS = [
     "PorepyVerif.C27.kron_dim",
     "PorepyVerif.C27.expandNd_index",
-    "PorepyVerif.C27.cell_projections_are_blocks",
-    "PorepyVerif.C27.face_projections_are_blocks",
+    "PorepyVerif.C27.kron_triplets",
+    "PorepyVerif.C27.projections_are_blocks",
     "PorepyVerif.C27.blocks_disjoint_contiguous_cover",
     "PorepyVerif.C27.block_offsets",
     "PorepyVerif.C27.restrict_prolong_id",
@@ -26,12 +26,13 @@ THEOREMS = [
     "PorepyVerif.C27.matrices_act_as_index_maps",
     "PorepyVerif.C27.mortar_block_offsets",
     "PorepyVerif.C27.mortar_to_mortar_block_offsets",
+    "PorepyVerif.C27.mortar_rejections",
     "PorepyVerif.C27.boundary_projection_is_restriction",
 ]
 LEAN_MODULES = ["PorepyVerif.C27.Props"]
 AUDIT = "PorepyVerif/C27/Audit.lean"
 DRIVER = "PorepyVerif/C27/Driver.lean"
-N = {"quick": 110, "thorough": 2200}
+N = {"quick": 110, "thorough": 4000}
 RULE = ("md-grids: 2-d Cartesian grids (1-4 x 1-4 cells) with 0-3 axis-aligned fractures (crossing, touching, partial), optionally "
         "with the 2-d grid removed (1-d/0-d md-grid), 1-d fracture grids refined (non-matching interfaces, weights 1/2), point wells "
         "(codimension-2 interfaces); 3-d Cartesian grids with 0-3 planar fractures; single unfractured grids of dimension 1-3; and "
@@ -494,6 +495,21 @@ def _offsets(sizes, dim):
 
 
 def oracle(case):
+    """The property on the real code.  An exception that escapes from inside porepy on a well-formed case is a failure of
+    the property (reported, keyed by its type); an exception raised by the harness itself is re-raised (harness defect)."""
+    import traceback
+    try:
+        return _oracle(case)
+    except Exception as e:
+        frames = traceback.extract_tb(e.__traceback__)
+        if any(os.sep + "porepy" + os.sep in f.filename for f in frames):
+            where = [f for f in frames if os.sep + "porepy" + os.sep in f.filename][-1]
+            return {"what": f"porepy raised {type(e).__name__}: {e} at {os.path.basename(where.filename)}:{where.name} for list {case['all']}, "
+                            f"interfaces {case['intfs']}, dim {case['dim']}", "key": f"real-code-raises-{type(e).__name__}"}
+        raise
+
+
+def _oracle(case):
     P = _pp()
     np, sps, pp = P["np"], P["sps"], P["pp"]
     w = _world(case["grid"])
@@ -528,6 +544,8 @@ def oracle(case):
                 if not bad:
                     return {"what": f"{which} projection raised IndexError on well-formed sizes {sizes}", "key": f"sub-{which}-indexerror"}
                 continue
+            except Exception as e:
+                return {"what": f"{which} projection for {s} of list {case['all']} dim {dim} raised {type(e).__name__}: {e}", "key": f"sub-{which}-raises"}
             if not known:
                 return {"what": f"{which} projection accepted a grid that is not in the list ({s} vs {case['all']})", "key": f"sub-{which}-unknown-accepted"}
             if bad:
@@ -567,9 +585,12 @@ def oracle(case):
         return None
     mdg = w.mdg
     # ---- boundary projection
-    bp = pp.ad.BoundaryProjection(mdg, subs, dim)
-    S = bp.subdomain_to_boundary.parse(mdg)
-    B = bp.boundary_to_subdomain.parse(mdg)
+    try:
+        bp = pp.ad.BoundaryProjection(mdg, subs, dim)
+        S = bp.subdomain_to_boundary.parse(mdg)
+        B = bp.boundary_to_subdomain.parse(mdg)
+    except Exception as e:
+        return {"what": f"BoundaryProjection for list {case['all']} dim {dim} raised {type(e).__name__}: {e}", "key": "boundary-raises"}
     fsz = [g.num_faces for g in subs]
     f_off, f_tot = _offsets(fsz, dim)
     rows, cols, r = [], [], 0
@@ -598,18 +619,23 @@ def oracle(case):
         return {"what": "subdomain_to_boundary @ boundary_to_subdomain != I", "key": "boundary-RP-not-identity"}
     # ---- trace / divergence: block placement with the same offsets
     if subs:
-        if dim == 1:
-            T = pp.ad.Trace(subs, 1).trace._mat
-            if not _same(T, sps.block_diag([g.trace() if g.dim > 0 else sps.csr_matrix((0, g.num_cells)) for g in subs], format="csr")):
-                return {"what": "Trace is not the block diagonal of the local traces", "key": "trace-blocks"}
-        D = pp.ad.Divergence(subs, dim).parse(mdg)
+        try:
+            T = pp.ad.Trace(subs, 1).trace._mat if dim == 1 else None
+            D = pp.ad.Divergence(subs, dim).parse(mdg)
+        except Exception as e:
+            return {"what": f"Trace/Divergence for list {case['all']} dim {dim} raised {type(e).__name__}: {e}", "key": "trace-divergence-raises"}
+        if dim == 1 and not _same(T, sps.block_diag([g.trace() if g.dim > 0 else sps.csr_matrix((0, g.num_cells)) for g in subs], format="csr")):
+            return {"what": "Trace is not the block diagonal of the local traces", "key": "trace-blocks"}
         if not _same(D, sps.block_diag([g.divergence(dim=dim) for g in subs], format="csr")):
             return {"what": "Divergence is not the block diagonal of the local divergences", "key": "divergence-blocks"}
     # ---- mortar projections
     intfs = [w.intfs[k] for k in case["intfs"]]
-    mp = pp.ad.MortarProjections(mdg, subs, intfs, dim)
-    if intfs:
+    try:
+        mp = pp.ad.MortarProjections(mdg, subs, intfs, dim)
         sg = mp.sign_of_mortar_sides()._mat
+    except Exception as e:
+        return {"what": f"MortarProjections / sign_of_mortar_sides for list {case['all']}, interfaces {case['intfs']} raised {type(e).__name__}: {e}", "key": "mortar-ctor-raises"}
+    if intfs:
         want = np.hstack([it.sign_of_mortar_sides(dim).diagonal() for it in intfs])
         if sg.shape != (want.size, want.size) or not np.array_equal(sg.diagonal(), want) or sg.nnz != want.size:
             return {"what": "sign_of_mortar_sides is not the concatenation of the per-interface signs", "key": "mortar-sign"}
